@@ -503,7 +503,8 @@ def c10e(ctx):
         def served_bbox(v):
             for depth in (0, 1, 2, 3):       # the value itself, or the local it was first held in
                 c = fn.canon.expr(v, depth=depth) if depth else v
-                if is_call(c, 'self.grid.tile_bbox') and c.args and unparse(c.args[0]) == 'tile_coord':
+                # (the full tile rectangle: the clipped one of limit=True is not the extent of the tile image, C01.j)
+                if is_call(c, 'self.grid.tile_bbox') and len(c.args) == 1 and not c.keywords and unparse(c.args[0]) == 'tile_coord':
                     return True
             # a placeholder (`tile_bbox = None` when there is no limit) that cannot reach the mask
             st = enclosing(v, ast.Assign)
@@ -668,3 +669,17 @@ def resolve_const_tuple(e, defs):
     if isinstance(e, ast.Tuple) and all(isinstance(x, ast.Constant) for x in e.elts):
         return tuple(x.value for x in e.elts)
     return None
+
+
+@rule('C10.k', floor=2)
+def c10k(ctx):
+    """shared rule, re-evaluated for this property: the geometry a request is limited to is the one the callback returned, also after
+    it was transformed into the SRS of the image that is clipped -- a re-projected polygon keeps its holes (C17.i); content inside a
+    hole of the permitted area must stay invisible"""
+    from ..engine import run_property
+    sub = run_property(ctx.repo, 'C17', ctx.tier, only={'C17.i'})
+    for er in sub.errors:
+        raise Undecided('shared rule %s: %s' % er)
+    for o in sub.obs:
+        (ctx.ok if o.status == 'ok' else ctx.bad)('%s:%s' % (o.rule, o.construct), o.msg, o.where)
+    ctx.stats['functions'] |= sub.stats['functions']
